@@ -494,10 +494,12 @@ unsafe fn do_spawn<F: PreExec>(
             Err(e.into())
         })();
         let Err(e) = child_res;
+        // An error without an OS code (only a pre-exec closure can produce one) is reported as
+        // code 0, the caller turns that back into an error without a code
         let code: [u8; 4] = if let Error::Os { code, .. } = e {
             code.raw().to_be_bytes()
         } else {
-            rusl::process::exit(1)
+            0i32.to_be_bytes()
         };
         let bytes = [
             code[0],
@@ -535,9 +537,14 @@ unsafe fn do_spawn<F: PreExec>(
                     return Err(Error::no_code("Validation on the CLOEXEC pipe failed"));
                 }
 
-                let errno = Errno::new(i32::from_be_bytes(errno.try_into().unwrap_unchecked()));
+                let errno = i32::from_be_bytes(errno.try_into().unwrap_unchecked());
                 process.wait()?;
-                return Err(Error::os("Failed to wait for process", errno));
+                if errno == 0 {
+                    return Err(Error::no_code(
+                        "A pre-exec step of the child failed without an OS error code",
+                    ));
+                }
+                return Err(Error::os("Failed to wait for process", Errno::new(errno)));
             }
             Err(ref e) if matches!(e.code, Some(Errno::EINTR)) => {}
             Err(_) => {
